@@ -538,7 +538,8 @@ def unit_ctor(sess, ctx):
                 eng.prove("C02:ctor:unexpected-exception-%s" % e.exc, False, props=("C02",))
             return None
         # (what happens with a validator that is neither callable nor a DataValidator is outside the statement)
-        eng.prove("C02:ctor:accepted-tuple-is-not-in-the-rejected-set", Not(reject), props=("C02",))
+        # every tokenizer proof (C01-C04, C08, C20) assumes p.accepted(): this is where it is established
+        eng.prove("C02:ctor:accepted-tuple-is-not-in-the-rejected-set", Not(reject), props=("C01", "C02", "C03", "C04", "C08", "C20"))
         if vk == 2:
             return None
         h = st.heap[me.oid]
@@ -759,6 +760,78 @@ def unit_iter_tokens(sess, ctx, active):
     return u
 
 
+def unit_stale_fields(sess, ctx):
+    """C20, history independence: a per-run field that _reinitialize() does NOT reset (found by running the real
+    _reinitialize on an object whose per-run fields all hold stale values) must never be read before it is written.
+    Such a field can only be stale while the automaton is in SILENCE (every transition out of SILENCE must overwrite
+    it): _process and _post_process are run from SILENCE with those fields stale; reading one, or leaving SILENCE
+    with one still stale, is a violation."""
+    from pyvc.engine import Stale
+    u = Unit("StreamTokenizer._reinitialize/_process/_post_process (stale per-run fields)",
+             [Q + "_reinitialize", Q + "_process", Q + "_post_process", Q + "_process_end_of_detection"])
+    eng = setup_engine(sess, ["_process_end_of_detection", "_reinitialize"])
+    PER_RUN = ("_state", "_data", "_tokens", "_contiguous_token", "_init_count", "_silence_length", "_start_frame",
+               "_current_frame", "_deliver")
+
+    def run_(eng):
+        p = P()
+        eng.assume(p.accepted())
+        st = eng.st
+        tags = ("C20",)
+        flds = {"validator": Opq(tag="validator"),
+                "_is_valid": LibCallable("validator", lambda e, a, k: Bool(fresh_name("verdict"))),
+                "min_length": p.m, "max_length": p.M, "max_continuous_silence": p.s,
+                "init_min": p.i0, "init_max_silent": p.ims, "_mode": Opq(tag="mode"),
+                "_strict_min_length": p.strict, "_drop_trailing_silence": p.drop}
+        for nm in PER_RUN:
+            flds[nm] = Stale(nm, tags, "is left over from an earlier run and is read before being written")
+        me = st.new_obj("StreamTokenizer", flds)
+        eng.current_fn = ctx.fi["_reinitialize"]
+        eng.run_function(ctx.fi["_reinitialize"], [], {}, me)
+        h = st.heap[me.oid]
+        unreset = [nm for nm in PER_RUN if isinstance(h.get(nm), Stale)]
+        st0 = h.get("_state")
+        ok_state = not isinstance(st0, Stale) and (isinstance(st0, int) or z3.is_expr(st0)) and not isinstance(st0, bool)
+        eng.prove("C20:reinitialize-returns-the-automaton-to-SILENCE", (I(st0) == SILENCE) if ok_state else False, props=tags)
+        d0 = h.get("_data")
+        eng.prove("C20:reinitialize-empties-the-buffer", isinstance(d0, Seq) and d0.kind == "list" and isinstance(d0.n, int) and d0.n == 0,
+                  props=tags)
+        if not ok_state or isinstance(d0, Stale):
+            raise PathEnd()
+        # any later moment at which the automaton is (still / again) in SILENCE: frame counter arbitrary
+        n = Int("n")
+        eng.assume(n >= 0)
+        h["_current_frame"] = n
+        h["_state"] = IntVal(SILENCE)
+        h["_data"] = seq_lit("list", [], new_aid())
+        if isinstance(h.get("_contiguous_token"), Stale):
+            pass        # reported by the entry obligations of _iter_tokens as well; stays stale here
+        op = eng.choose(2, None, "_process / _post_process")
+        st.ghost["cur"] = n
+        try:
+            if op == 0:
+                eng.current_fn = ctx.fi["_process"]
+                eng.run_function(ctx.fi["_process"], [Opq(F(n))], {}, me)
+            else:
+                eng.current_fn = ctx.fi["_post_process"]
+                eng.run_function(ctx.fi["_post_process"], [], {}, me)
+        except PyRaise as e:
+            eng.prove("no-exception:%s raises %s" % (["_process", "_post_process"][op], e.exc), False, props=tags)
+            raise PathEnd()
+        h = st.heap[me.oid]
+        s1 = h.get("_state")
+        if isinstance(s1, Stale) or s1 is None:
+            raise PathEnd()
+        if eng.decide(I(s1) != SILENCE):
+            for nm in unreset:
+                if nm in ("_tokens", "_deliver"):
+                    continue
+                eng.prove("C20:no-stale-%s-when-leaving-SILENCE" % nm, not isinstance(h.get(nm), Stale), props=tags)
+        return None
+    sess.run_unit(u, eng, run_)
+    return u
+
+
 def unit_tokenize(sess, ctx):
     """tokenize(): list, generator and callback modes are thin wrappers over the
     same token generator: list mode returns list(G), generator mode returns G
@@ -849,6 +922,7 @@ UNITS = {
     "post_process": lambda sess, ctx, opts: unit_post_process(sess, ctx, opts["active"]),
     "iter_tokens": lambda sess, ctx, opts: unit_iter_tokens(sess, ctx, opts["active"]),
     "tokenize": lambda sess, ctx, opts: unit_tokenize(sess, ctx),
+    "stale_fields": lambda sess, ctx, opts: unit_stale_fields(sess, ctx),
 }
 HOUDINI = {"names": INV_NAMES, "units": ["process", "post_process", "iter_tokens"]}
 
